@@ -201,7 +201,7 @@ theorem neg_u8_enc (name : String) (v : Vals) (x : Int) (hg : v.get name = .ok (
 theorem i16_enc (name : String) (v : Vals) (x : Int) (hg : v.get name = .ok (.int x)) (h1 : -32768 ≤ x) (h2 : x ≤ 32767) :
     fieldTo (.int name .always 2 .big true 0 1) v = .ok (be16s x) := by
   have := fieldTo_int_eval name 2 .big true 0 1 v x hg (by decide)
-    (by rw [fitsInt_signed, Int.sub_zero, fdiv_one]; omega)
+    (by rw [fitsInt_signed _ _ (by decide), Int.sub_zero, fdiv_one]; omega)
   rw [this, Int.sub_zero, fdiv_one, bytesOf_2_big, be16s]
   have : ((256 ^ 2 : Nat) : Int) = 65536 := by decide
   rw [this]
